@@ -251,7 +251,7 @@ class SymCtx(BaseCtx):
             else:
                 tries.append(dy)
                 tries.append([])
-        if tries == [None]:
+        if tries == [None] or (strict_only and getattr(self, "tie_risk", False)):
             return None
         old = E.timeout_ms
         for i, extra in enumerate(tries):
@@ -278,6 +278,7 @@ class SymCtx(BaseCtx):
             seen.setdefault(c.sexpr(), (i, c))
         strong = list(seen.values())
         s.set("timeout", min(E.timeout_ms, 3000))
+        removed = []
         for _ in range(40):
             if not strong:
                 break
@@ -291,15 +292,32 @@ class SymCtx(BaseCtx):
                 if r == z3.sat:
                     break
                 if r == z3.unknown:
+                    removed += strong
                     strong = []
                     break
                 core = set(str(x) for x in s.unsat_core())
             finally:
                 s.pop()
             if not core:
+                removed += strong
                 strong = []
                 break
+            removed += [(i, c) for i, c in strong if "st!%d" % i in core]
             strong = [(i, c) for i, c in strong if "st!%d" % i not in core]
+        # an atom dropped although it could hold with a margin on its own means the model may sit on a
+        # tie of that atom: such a model must not be used to cross-validate engine and code
+        # (an atom whose margin version is unsatisfiable on its own, like a*a <= (-a)*(-a) - eps, is a
+        # tautological tie: both float outcomes are equivalent; a tie forced by other path atoms is not)
+        self.tie_risk = False
+        if removed:
+            scratch = z3.Solver()
+            scratch.set("timeout", 1000)
+            for i, c in removed:
+                E.n_queries += 1
+                if scratch.check(c) != z3.unsat:
+                    self.tie_risk = True
+                    self.tie_atom = c
+                    break
         s.set("timeout", E.timeout_ms)
         return [c for i, c in strong]
 
